@@ -1,14 +1,15 @@
 # C18: independent contexts can be used from different threads without interference.
 #  proofs : coq/Properties_C18.v (noninterference, steps_commute: generic),
 #           coq/Properties_C18_Statics.v (no_conflicting_access etc. over the list regenerated from the tree)
-#  tie    : tools/tr_c18_statics.py (every run)
+#           coq/Properties_C18_CtxInit.v (init establishes every context field: behaviour independent of the heap contents)
+#  tie    : tools/tr_c18_statics.py, tools/tr_c18_ctxinit.py (every run)
 #  search : harness/c18_threads.c under ThreadSanitizer, N threads x own context x seeded API scripts, results
 #           compared with the sequential run
 import os, sys, json, re, hashlib, time
 import vlib
 
 sys.path.insert(0, os.path.join(vlib.VERIF, 'tools'))
-import tr_c18_statics, gen_c17_scen as G, gen_c17_csrc as CS, gen_c17_cgen as CG
+import tr_c18_statics, tr_c18_ctxinit, gen_c17_scen as G, gen_c17_csrc as CS, gen_c17_cgen as CG
 
 LEVEL = 'proof'
 TSAN_ENV = {'TSAN_OPTIONS': 'halt_on_error=0 report_signal_unsafe=0 exitcode=66 history_size=4'}
@@ -364,9 +365,17 @@ def run(chk):
         chk.log('statics: %d data objects, %d in writable sections, %d with writes: %s' % (
             stats['total'], len(objs), len(flagged), [o['name'] for o in flagged]))
         r2 = chk.prove('Properties_C18_Statics')
+        # which fields of struct MIR_context / gen_ctx / interp_ctx do the init functions establish (heap coupling)
+        ctxinit = tr_c18_ctxinit.generate()
+        unest = [(r['struct'], f) for r in ctxinit for f in r['missing']]
+        chk.log('context fields: %s; not established by init: %s' % (
+            ', '.join('%s %d/%d written (+%d audited)' % (r['struct'], len(r['written']), len(r['fields']), len(r['deferred'])) for r in ctxinit), unest))
+        r3 = chk.prove('Properties_C18_CtxInit')
     exe = build()
     chk.cov['trusted_base'] += [
         'tools/tr_c18_statics.py (readelf/objdump over -O0 -fdata-sections objects, regex source scan for assignments)',
+        'tools/tr_c18_ctxinit.py (regex scan: struct fields, stores in the init functions and their *init* callees); '
+        'coq/C18/CtxInitFacts.v deferred_fields: 11 fields audited by reading as written before read by a later API call',
         'coq/C18/Audit.v: address-taken tables audited by reading as never written (17 entries)',
         'ThreadSanitizer (gcc 12 libtsan) for races through memory not named by a static object; the OS scheduler chooses the interleavings actually run',
         'harness/c18_threads.c, harness/c17_api.h']
@@ -383,7 +392,11 @@ def run(chk):
     for _ in range(nrand):
         nt = rng.choice([2, 3, 4, 6, 8])
         th = [G.Scen(rng, [0], threads=True).lines for _ in range(nt)]
-        sets.append((rng.choice(['random', 'random@arena']), th, rng.choice([1, 2, 3])))
+        kind = rng.choice(['random', 'random@arena'])
+        if kind == 'random@arena':
+            # patches at the page ends of the context's code holders, next to the other contexts' pages
+            th = [[x for l in sc for x in ([l, 'patchend'] if l.startswith('link ') and rng.random() < 0.6 else [l])] for sc in th]
+        sets.append((kind, th, rng.choice([1, 2, 3])))
     found = {}
     nrep = 0
     nrun = 0
@@ -497,13 +510,15 @@ def run(chk):
         chk.finding(sig, dict(script=lines, detail=detail,
                               how='./check C18 --replay <this file> (feeds the script to harness/c18_threads.c built with -fsanitize=thread)'),
                     what)
-    if not quick and r1['ok'] and r2['ok'] and not coqchk(chk, ['MirV.Properties_C18', 'MirV.Properties_C18_Statics']):
+    if not quick and r1['ok'] and r2['ok'] and r3['ok'] and not coqchk(chk, ['MirV.Properties_C18', 'MirV.Properties_C18_Statics',
+                                                                             'MirV.Properties_C18_CtxInit']):
         r1['ok'] = False
         r1['log'] += '\ncoqchk failed'
-    broken = [r for r in (r1, r2) if not r['ok']]
+    broken = [r for r in (r1, r2, r3) if not r['ok']]
     if broken and not found:
         chk.proof_broken(broken[0], searched='%d thread sets under ThreadSanitizer without a report; objects flagged by the translator: %s' % (
-            len(sets), [(o['unit'], o['name'], o['writers'] or o['src_writes']) for o in flagged] or
+            len(sets), [('field not established by init', x) for x in unest] or
+            [(o['unit'], o['name'], o['writers'] or o['src_writes']) for o in flagged] or
             [(o['unit'], o['name']) for o in objs if (o['addr_takers'] or o['data_refs'])][:40]))
     elif broken:
         chk.notes.append('proof/tie broken as well: ' + ', '.join('%s:%s' % x for b in broken for x in vlib.coq_failed_units(b['log'])[:3]))
